@@ -128,7 +128,7 @@ Definition l2i_code (c : l2i_case) : N :=
     flags bit 0: member of an (encrypted) object stream — then [raw] is the member as it stands
     in the decrypted object stream, i.e. plaintext, and the reference hands it out as it is.
     code bit 4: the harness's encryptor disagrees with the reference (harness defect, never a finding);
-    bit 1: the reader model (C05: decrypt once, members once more) differs from the library;
+    bit 1: the reader model (C05: direct objects decrypted once, members handed out as parsed) differs from the library;
     bit 2: the library's result is not the plaintext. *)
 Definition i2l_case := (N * bool * bytes * N * N * N * obj * obj * option obj)%type.
 Definition i2l_code (c : i2l_case) : N :=
@@ -136,8 +136,8 @@ Definition i2l_code (c : i2l_case) : N :=
   let id := (num, gen) in
   let member := N.testbit flags 0 in
   let ref := if member then Some raw else RefDecrypt meth encmeta key id raw in
-  let ref_ok := match ref with Some o => obj_eqb o plain | None => false end in
-  let model := lib_read meth key id raw in
+  let ref_ok := match ref with Some o => iso_payload_eqb o plain | None => false end in
+  let model := if member then Some raw else lib_read meth key id raw in
   let m_ok := option_eqb obj_eqb model lib in
   let p_ok := match lib with Some o => iso_payload_eqb o plain | None => false end in
   (if ref_ok then 0 else 4) + code_of m_ok p_ok.
